@@ -938,3 +938,42 @@ Proof.
   - rewrite obf_roundtrip by auto. apply (dispatch_current zc zd Hz f d s m b It Is C E).
   - apply (dispatch_current zc zd Hz f d s m b It Is C E).
 Qed.
+
+(* ==================================================================================== *)
+(* the boolean domain check used by the correspondence harness implies [canonical] *)
+From Slsk Require Import C01.Eval.
+Lemma bytes_eqb_eq : forall a b, bytes_eqb a b = true -> a = b.
+Proof.
+  induction a; intros b H; destruct b; cbn in H; try discriminate; auto.
+  apply andb_prop in H as [H1 H2]. apply N.eqb_eq in H1. f_equal; auto.
+Qed.
+
+Fixpoint value_eqb_eq (a : value) : forall b, value_eqb a b = true -> a = b.
+Proof.
+  destruct a as [z|bb|s|s|o|vs|vs|]; intros c H; destruct c as [z0|bb0|s0|s0|o0|vs0|vs0|]; cbn [value_eqb] in H; try discriminate.
+  - apply Z.eqb_eq in H. congruence.
+  - apply Bool.eqb_prop in H. congruence.
+  - apply bytes_eqb_eq in H. congruence.
+  - apply bytes_eqb_eq in H. congruence.
+  - apply bytes_eqb_eq in H. congruence.
+  - f_equal. revert vs0 H. induction vs as [|p x IH]; intros y H; destruct y as [|q y]; try discriminate; auto.
+    apply andb_prop in H as [H1 H2]. f_equal; [apply value_eqb_eq; exact H1|apply IH; exact H2].
+  - f_equal. revert vs0 H. induction vs as [|p x IH]; intros y H; destruct y as [|q y]; try discriminate; auto.
+    apply andb_prop in H as [H1 H2]. f_equal; [apply value_eqb_eq; exact H1|apply IH; exact H2].
+  - reflexivity.
+Qed.
+
+Lemma canonical_fromb_sound : forall fs all vs, canonical_fromb fs all vs = true -> canonical_from fs all vs.
+Proof.
+  induction fs as [|f fs IH]; intros all vs H; destruct vs as [|v vs]; cbn in *; try discriminate; auto.
+  apply andb_prop in H as [H1 H2]. split; [|apply IH; exact H2].
+  assert (D : forall w, default_isb f w = true -> default_is f w).
+  { intros w Hw. unfold default_isb, default_is in *. destruct (fdefault f) as [d|]; [|discriminate].
+    apply value_eqb_eq in Hw. congruence. }
+  destruct (cond_holds f all); [|apply D; exact H1].
+  destruct (is_none v); [|exact H1].
+  apply andb_prop in H1 as [Ha Hb]. apply andb_prop in Hb as [Hb Hc]. auto.
+Qed.
+
+Theorem canonicalb_sound : forall s m, canonicalb s m = true -> canonical s m.
+Proof. intros. apply canonical_fromb_sound. assumption. Qed.
